@@ -75,8 +75,21 @@ def make_scenario(seed, idx, U, si=False):
         cfg = {"name": "si", "bank": {"name": "gabor", "scaling_function": "mel", "num_filts": 8, "sampling_rate": 8000, "low_hz": 60.0, "high_hz": 3600.0}, "frame_shift_ms": 2.5}
         lens = [int(rng.integers(600, 1500)) for _ in range(U)]
         lens[1] = 6
+    extra = {}
+    if si or idx % 2 == 1:
+        extra = {"prefix": "feat-", "suffix": ".feat"}  # the file names are built from these wherever the tool names a feature file
     return {"idx": idx, "ids": ids, "lens": lens, "cfg": cfg, "pre": [{"name": "preemph"}, {"name": "dither", "coeff": 3.0}], "seed_opt": 0 if idx % 2 == 0 else int(rng.integers(1, 50)),
-            "containers": [str(rng.choice(["npy", "pt"])) for _ in range(U)]}
+            "containers": [str(rng.choice(["npy", "pt"])) for _ in range(U)], **extra}
+
+
+def fname(scn, u):
+    """name of the feature file of utterance u under the scenario's --file-prefix / --file-suffix"""
+    return scn.get("prefix", "") + u + scn.get("suffix", ".pt")
+
+
+def uid_of(scn, fn):
+    pre, suf = scn.get("prefix", ""), scn.get("suffix", ".pt")
+    return fn[len(pre):len(fn) - len(suf)] if fn.startswith(pre) and fn.endswith(suf) else fn
 
 
 def write_inputs(scn, d, seed):
@@ -98,7 +111,8 @@ def write_inputs(scn, d, seed):
 
 def tool_args(scn, d, work, workers=0):
     return [os.path.join(d, "map"), json.dumps(scn["cfg"]), os.path.join(work, "out"), "--seed", str(scn["seed_opt"]), "--preprocess", json.dumps(scn["pre"]),
-            "--manifest", os.path.join(work, "man.txt"), "--num-workers", str(workers)]
+            "--manifest", os.path.join(work, "man.txt"), "--num-workers", str(workers)] + (
+        ["--file-prefix", scn["prefix"]] if scn.get("prefix") else []) + (["--file-suffix", scn["suffix"]] if scn.get("suffix") else [])
 
 
 def run_tool(scn, d, work, K=0, sig="NONE", workers=0, strace=None, timeout=300):
@@ -193,7 +207,7 @@ class Checker:
         for u in listed:
             if u not in ids:
                 continue
-            t = files.get(u + ".pt")
+            t = files.get(fname(self.scn, u))
             s = same(t, self.gold[u]) if t is not None else "missing"
             if s == "rounding":
                 self.rec.count("rounding_level_differences")
@@ -215,7 +229,7 @@ class Checker:
         sentinel = torch.full((2, 2), -12345.0)
         saved_inputs = {}
         for u in listed:
-            p = os.path.join(work, "out", u + ".pt")
+            p = os.path.join(work, "out", fname(self.scn, u))
             if os.path.exists(p):
                 torch.save(sentinel, p)
             idx = self.scn["ids"].index(u)
@@ -241,7 +255,7 @@ class Checker:
             for u in listed:
                 idx = self.scn["ids"].index(u)
                 ip = os.path.join(d, "raw", "%s.%s" % (u, self.scn["containers"][idx]))
-                op = os.path.join(work, "out", u + ".pt")
+                op = os.path.join(work, "out", fname(self.scn, u))
                 if ip in opened or op in opened:
                     self.v("the resumed run opened %s of %r, which the manifest already listed (%s)" % ("the input" if ip in opened else "the feature file", u, fault),
                            check="I5_opened", utt=u, **info)
@@ -253,7 +267,7 @@ class Checker:
         if sorted(final) != sorted(self.scn["ids"]):
             self.v("after the resume the manifest lists %r, expected each of %r exactly once (%s)" % (final, self.scn["ids"], fault), check="I4_manifest", **info)
         for u in self.scn["ids"]:
-            t = files.get(u + ".pt")
+            t = files.get(fname(self.scn, u))
             if u in listed:
                 if t is None or not torch.equal(t, sentinel):
                     self.v("utterance %r was listed in the manifest before the resume but was recomputed / rewritten (%s)" % (u, fault), check="I5_rewritten", utt=u, **info)
@@ -264,7 +278,7 @@ class Checker:
                 elif s != "identical":
                     self.v("after the resume %r is %s (%s)" % (u, "missing / not loadable" if s == "missing" else "different from the uninterrupted run", fault), check="I4_differs",
                            utt=u, **info)
-        extra = sorted(set(files) - {u + ".pt" for u in self.scn["ids"]})
+        extra = sorted(set(files) - {fname(self.scn, u) for u in self.scn["ids"]})
         if extra:
             self.v("after the resume the directory holds unexpected files %r (%s)" % (extra, fault), check="I4_stray_files", **info)
 
@@ -275,7 +289,7 @@ def golden(scn, d, base):
     if rc != 0:
         return None, None, "golden run failed rc=%r: %s" % (rc, err[-300:])
     raw, files = read_state(work)
-    gold = {fn[:-3]: t for fn, t in files.items()}
+    gold = {uid_of(scn, fn): t for fn, t in files.items()}
     ev, _ = events(work)
     if sorted(gold) != sorted(scn["ids"]) or any(t is None for t in gold.values()) or raw.split() != scn["ids"]:
         return None, None, "golden run incomplete: files %r manifest %r" % (sorted(gold), raw.split())
@@ -344,7 +358,7 @@ def run_case(case, rec):
                 if 0 < done and len(listed) < U:
                     rec.nt((scn["idx"], "stmt", K, f["sig"], f.get("second"), f.get("workers", 0)))
             elif f["mech"] == "write":
-                target = os.path.join(work, "out", f["utt"] + ".pt") if f["utt"] != "@manifest" else os.path.join(work, "man.txt")
+                target = os.path.join(work, "out", fname(scn, f["utt"])) if f["utt"] != "@manifest" else os.path.join(work, "man.txt")
                 os.makedirs(os.path.join(work, "out"), exist_ok=True)
                 st = {"out": os.path.join(work, "strace.txt"), "inject": ["-e", "inject=write,pwrite64,writev:signal=SIGKILL:when=%d" % f["k"], "-P", target]}
                 rc, err = run_tool(scn, d, work, 0, "NONE", 0, strace=st)
@@ -375,7 +389,7 @@ def run_case(case, rec):
                         chk.v("--num-workers %d exited with %r" % (w, rc), check="I6_exit", workers=w)
                         continue
                     for u in scn["ids"]:
-                        s = same(files.get(u + ".pt"), gold[u])
+                        s = same(files.get(fname(scn, u)), gold[u])
                         if s == "rounding":
                             rec.count("rounding_level_differences")
                         elif s != "identical":
@@ -430,7 +444,7 @@ def plan(tier, seed):
             faults.append({"mech": "stmt", "K": K, "sig": "SIGKILL", "tag": "k%d" % K, "trace": (K % 8 == 3) if q else (K % 3 == 0)})
             faults.append({"mech": "stmt", "K": K, "sig": "SIGINT", "tag": "i%d" % K})
         for name, cnt in sorted(wc.items()):
-            utt = "@manifest" if name == "man.txt" else name[:-3]
+            utt = "@manifest" if name == "man.txt" else uid_of(scn, name)
             ks = list(range(1, cnt + 1))
             if len(ks) > 6 and q:
                 ks = ks[:3] + [ks[len(ks) // 2]] + ks[-2:]
